@@ -71,7 +71,7 @@ func (g *goGen) typeOf(x ast.Expr) string {
 	case *ast.CallExpr:
 		if id, ok := x.Fun.(*ast.Ident); ok {
 			switch id.Name {
-			case "forall", "exists", "imp", "iff":
+			case "forall", "exists", "imp", "iff", "isNil", "freshbytes", "same", "bytesframe":
 				return "bool"
 			case "len", "int", "byte", "rune":
 				return "int"
@@ -144,6 +144,13 @@ func (g *goGen) expr(x ast.Expr) string {
 			return fmt.Sprintf("func() bool { for %s := %s; %s < %s; %s++ { if %s { return %s } }; return %s }()", v, g.expr(x.Args[1]), v, g.expr(x.Args[2]), v, brk, fin, init)
 		case "old":
 			return g.expr(x.Args[0]) // pure inputs only
+		case "isNil":
+			return "(" + g.expr(x.Args[0]) + " == 0)"
+		case "freshbytes", "same", "bytesframe":
+			if id.Name == "same" {
+				return "(" + g.expr(x.Args[0]) + " == " + g.expr(x.Args[1]) + ")"
+			}
+			return "true"
 		}
 		if _, ok := g.w.Specs.SpecFuncs[id.Name]; ok {
 			g.use(id.Name)
@@ -184,7 +191,15 @@ func (g *goGen) specFuncsGo() string {
 			progress = true
 			sf := g.w.Specs.SpecFuncs[n]
 			if sf.Uninterp {
-				panic("rac: uninterpreted spec function " + n)
+				if sf.Native == "" {
+					panic("rac: uninterpreted spec function " + n)
+				}
+				var ps []string
+				for _, p := range sf.Params {
+					ps = append(ps, p.Name+" "+goType(p.Type))
+				}
+				fmt.Fprintf(&b, "func spec_%s(%s) %s {\n\treturn %s\n}\n\n", n, strings.Join(ps, ", "), goType(sf.Ret), sf.Native)
+				continue
 			}
 			saved := g.types
 			g.types = map[string]string{}
@@ -220,6 +235,11 @@ func vSlice(s string, lo, hi int) string {
 		return ""
 	}
 	return s[lo:hi]
+}
+
+func verifJSON(s string) string {
+	b, _ := json.Marshal(s)
+	return string(b)
 }
 
 func vStrings(alpha string, max int, f func(string) bool) bool {
@@ -325,7 +345,7 @@ func genReplay(w *World, spec *FuncSpec, pkgName string, inputs []racInput, alph
 		}
 	}
 	var b strings.Builder
-	fmt.Fprintf(&b, "package %s\n\nimport (\n\t\"fmt\"\n\t\"testing\"\n)\n\nvar _ = fmt.Sprint\n", pkgName)
+	fmt.Fprintf(&b, "package %s\n\nimport (\n\t\"encoding/json\"\n\t\"fmt\"\n\t\"testing\"\n)\n\nvar _ = fmt.Sprint\nvar _ = json.Marshal\n", pkgName)
 	b.WriteString(racHelpers)
 	// check function
 	var ps []string
